@@ -1,10 +1,12 @@
 #!/bin/bash
 # run_all.sh [tier] : run every check once, sequentially; summary on stdout, logs in /dev/shm/verif-all/
 T=${1:-quick}
+V="$(cd "$(dirname "$0")/.." && pwd)"
+IDS="${2:-$(seq -w 1 20)}"
 mkdir -p /dev/shm/verif-all
-for i in $(seq -w 1 20); do
+for i in $IDS; do
   id=C$i
   s=$(date +%s)
-  timeout 3600 /verif/check $id $T > /dev/shm/verif-all/$id.$T.log 2>&1; rc=$?
+  timeout 7200 $V/check $id $T > /dev/shm/verif-all/$id.$T.log 2>&1; rc=$?
   echo "$id $T rc=$rc $(( $(date +%s) - s ))s viol=$(grep -c '^VIOLATION' /dev/shm/verif-all/$id.$T.log) known=$(grep -c '^KNOWN-FINDING' /dev/shm/verif-all/$id.$T.log) notes=$(grep -c 'CONFORMANCE-NOTE' /dev/shm/verif-all/$id.$T.log)"
 done
